@@ -1,3 +1,47 @@
-From Sonic Require Import Base.Prelude Model.Loop.
-Theorem C14_placeholder : True. Proof. exact I. Qed.
-Print Assumptions C14_placeholder.
+(* C14 -- inline completions never nest deeper than the dispatch limit.
+   Model/Loop.v: l_disp is IO.Dispatched, l_depth the (ghost) number of completion callbacks on the stack, LCb log
+   entries record the depth at which each callback ran.  A chain script is any script whose handler programs consist of
+   starts of reads/writes (of any kind, on any object, in any order and number) on open pollable objects; poll batches,
+   peer behaviour, timers, posts and top-level cancels are unrestricted.
+   PARTIAL: regular files are excluded by chain_lop - deferral at the limit fails for them in /repo (epoll refuses the
+   descriptor), which is the recorded known finding of this property; listener, packet and multicast copies of the
+   logic are not modelled. *)
+From Sonic Require Import Base.Prelude Gen.Consts Model.Loop Proofs.LoopProofs Proofs.LoopDepth.
+Local Open Scope Z_scope.
+
+(* The work-list machine: from any state in which A holds the callbacks on the stack (at most one of them not counted in
+   IO.Dispatched - the one the poller dispatched), every callback runs at depth <= max 0 (limit - d0) + 1, and when the
+   machine stops (not out of fuel) no callback is on the stack and IO.Dispatched is back at d0. *)
+Theorem C14_machine_depth_bound : forall d0 bound,
+  Z.max 0 (sonic_MaxCallbackDispatch - d0) + 1 <= bound ->
+  forall fuel s H A B, sinv d0 bound s H A B -> settled d0 bound (exec fuel s (H ++ A ++ B)).
+Proof. exact exec_depth. Qed.
+Print Assumptions C14_machine_depth_bound.
+
+(* Every line of every chain script. *)
+Theorem C14_script_line : forall s o,
+  idle s -> chain_lop o -> l_fuel_out (lstep s o) = false -> idle (lstep s o).
+Proof. exact lstep_idle. Qed.
+Print Assumptions C14_script_line.
+
+(* Every chain script, of any length: all callbacks ran at depth <= MaxCallbackDispatch + 1, and after every line the
+   depth is 0 and IO.Dispatched is what the line found. *)
+Theorem C14_chain_scripts_depth_bounded : forall ops s,
+  idle s -> Forall chain_lop ops -> no_fuel_out s ops -> idle (lrun s ops).
+Proof. exact chain_script_depth. Qed.
+Print Assumptions C14_chain_scripts_depth_bounded.
+
+Theorem C14_initial_state_idle : idle loop_init.
+Proof. exact idle_init. Qed.
+Print Assumptions C14_initial_state_idle.
+
+(* Non-vacuity: one socket with 100 readable bytes, a handler that re-issues a 1-byte read: 32 nested inline completions,
+   then a deferred one dispatched by the poller with 32 more nested under it: the deepest callback ran at depth 33. *)
+Example C14_demo :
+  let ops := [LObj 1 KSock; LProg 10 [AStart false false 1 1 10]; LPeer 1 (PData 100);
+              LAct (AStart false false 1 1 10); LPoll [(0, 1, 1)]] in
+  let s := lrun loop_init ops in
+  Forall chain_lop ops /\ no_fuel_out loop_init ops /\
+  fold_left Z.max (map (fun e => match e with LCb _ _ _ d => d | _ => 0 end) (l_log s)) 0 = 33 /\
+  l_depth s = 0 /\ l_disp s = 0 /\ l_pending s = 1.
+Proof. vm_compute. repeat split; repeat constructor; discriminate. Qed.
